@@ -32,6 +32,29 @@ func abortFault(f string) bool { return strings.HasPrefix(f, "client-abort") }
 // request arrives.
 const Pause = "pause"
 
+// GoodBurst is not a fault either: a CONCURRENT burst of Step.Concurrent (8-32) requests that BOTH
+// backends answer well (200, or 101 for part of an upgrade burst), written at the same instant (every
+// client has its connection open and waits at a gate). Placed right after a fault step it is the
+// traffic a busy proxy sees the moment a backend stops misbehaving: many SUCCESSFUL responses finishing
+// together while the bookkeeping of the fault (counted passive failures, breaker counts, pooled
+// connections) is still fresh. No status is demanded of these requests (the fault may legitimately
+// have left the breaker open or a backend ejected); clauses (i) and (iii) apply.
+const GoodBurst = "good-burst"
+
+// isFault: the step carries a fault of the alphabet (neither a quiet period nor a well-behaved burst).
+func (s Step) isFault() bool { return s.Fault != Pause && s.Fault != GoodBurst }
+
+// probeFault: the backend faults that can also be played on the health endpoint (Step.HealthToo):
+// what an active probe can meet is a refused connection, no answer, a non-200 status or no HTTP at all.
+func probeFault(f string) bool {
+	return f == "refuse" || f == "hang-headers" || f == "5xx" || f == "garbage"
+}
+
+// probeHoldMs: a step with HealthToo keeps FAULTY in its faulty state for this long (real time, from
+// the start of the step): longer than the active-check interval, so that at least one probe tick falls
+// into it.
+const probeHoldMs = 1000*activeEvery + 300
+
 // Framings is the framing dimension of the FAULTY backend's response: Content-Length, chunked
 // transfer coding, or delimited by closing the connection (Connection: close). "" = "cl".
 var Framings = []string{"cl", "chunked", "close"}
@@ -129,6 +152,51 @@ type Cfg struct {
 	// FaultyEntries > 1 lists the FAULTY server under that many backend names (faulty, faulty2, ...): each entry
 	// has its own health state and unhealthy window, so there are that many more window expiries per second
 	FaultyEntries int `json:"faulty_backend_entries,omitempty"`
+	// PassiveTimeoutOmitted: health_checks.passive.unhealthy_timeout is left out of the YAML (= 0). internal/config
+	// accepts that only while passive checks are disabled (never generated together with Passive). The value
+	// is also what a failed ACTIVE probe ejects a backend for, so with active checks on it decides whether a
+	// probe ejection lasts 1 s or 0 s (= the backend is eligible again with the next request).
+	PassiveTimeoutOmitted bool `json:"passive_unhealthy_timeout_omitted,omitempty"`
+}
+
+// probeEjection is how long a failed active probe ejects a backend under this configuration.
+func (c Cfg) probeEjection() time.Duration {
+	if c.PassiveTimeoutOmitted {
+		return 0
+	}
+	return unhealthyFor * time.Second
+}
+
+// comeBack is the time the configuration documents for a backend that has stopped misbehaving to be
+// eligible again: the passive unhealthy window, the window a failed probe ejects for (counted from the
+// end of a probe that was in flight: active timeout), the breaker's open timeout; 0 when none is configured.
+func (c Cfg) comeBack() time.Duration {
+	var d time.Duration
+	if c.Passive {
+		d = max(d, unhealthyFor*time.Second)
+	}
+	if c.Active {
+		d = max(d, time.Second+c.probeEjection()) // probe timeout 1 s + ejection
+	}
+	if c.Breaker > 0 {
+		d = max(d, cbTimeout*time.Second)
+	}
+	return d
+}
+
+// healthClass names the cell of the health-check configuration dimension.
+func (c Cfg) healthClass() string {
+	p := "passive-off"
+	switch {
+	case c.Passive:
+		p = "passive-on"
+	case c.PassiveTimeoutOmitted:
+		p = "passive-off-timeout-omitted"
+	}
+	if c.Active {
+		return p + "+active-on"
+	}
+	return p + "+active-off"
 }
 
 func (c Cfg) handler() int {
@@ -195,12 +263,22 @@ type Step struct {
 	// Framing of the FAULTY backend's response where the fault leaves a response head: "" = cl | chunked | close
 	Framing string `json:"framing,omitempty"`
 	PauseMs int    `json:"pause_ms,omitempty"`
+	// Good (concurrent fault steps only): this many ADDITIONAL requests of the same kind are part of the same
+	// burst, and both backends answer them well: faulted and successful requests are in flight together and
+	// the same backend gives 5xx / cut-off / no answers and complete 200s at the same time (a flaky backend
+	// under load). A burst with Good > 0 is synchronised (all requests written at the same instant).
+	Good int `json:"well_behaved_requests_in_burst,omitempty"`
+	// HealthToo (refuse, hang-headers, 5xx, garbage): while the step lasts FAULTY plays the fault on EVERYTHING
+	// it receives, in particular on the active probes of its health endpoint, and the step lasts at least
+	// probeHoldMs (longer than the active-check interval): a probe failure is part of the step.
+	HealthToo bool `json:"health_endpoint_too,omitempty"`
 }
 
-// requests is the burst size of the step.
+// requests is the number of requests of the step that carry the fault (Good and a GoodBurst's requests
+// come on top).
 func (s Step) requests() int {
 	switch {
-	case s.Fault == Pause:
+	case s.Fault == Pause || s.Fault == GoodBurst:
 		return 0
 	case s.Concurrent > 0:
 		return s.Concurrent
@@ -214,6 +292,9 @@ func (s Step) String() string {
 	if s.Fault == Pause {
 		return fmt.Sprintf("PAUSE %d ms", s.PauseMs)
 	}
+	if s.Fault == GoodBurst {
+		return fmt.Sprintf("GOOD-BURST of %s x%d concurrent (both backends well-behaved)", kindOf(s.Kind), s.Concurrent)
+	}
 	d := fmt.Sprintf("%s on %s x%d", s.Fault, kindOf(s.Kind), s.requests())
 	if s.Concurrent > 0 {
 		d += " concurrent"
@@ -226,6 +307,12 @@ func (s Step) String() string {
 	if s.Framing != "" {
 		d += " framing=" + s.Framing
 	}
+	if s.Good > 0 {
+		d += fmt.Sprintf(" + %d well-behaved requests in the same burst", s.Good)
+	}
+	if s.HealthToo {
+		d += fmt.Sprintf(" (also on the health endpoint, held %d ms)", probeHoldMs)
+	}
 	return d
 }
 
@@ -235,6 +322,8 @@ func (s Step) String() string {
 // wait breaker timeout + 0.2 s, then ONE request carrying Steps[0].Fault (the half-open trial).
 // Kind "window-expiry": FAULTY answers 5xx to everything while Clients keep-alive clients send
 // requests in a tight loop for Seconds, so that requests arrive at the instants unhealthy windows expire.
+// Kind "flaky-load": the same concurrent clients, but FAULTY is FLAKY: it answers 5xx to one request in
+// FlakyOneIn and 200 to the others, so that failures and successes of one backend finish side by side.
 type Case struct {
 	Kind    string `json:"kind,omitempty"`
 	Cfg     Cfg    `json:"cfg"`
@@ -244,6 +333,14 @@ type Case struct {
 	Seconds int    `json:"seconds,omitempty"`
 	// FreeRunning of the Clients send back to back on their own; the others send in synchronised volleys
 	FreeRunning int `json:"free_running_clients,omitempty"`
+	// FlakyOneIn (Kind "flaky-load"): FAULTY answers 5xx to one request in this many, 200 to the others
+	FlakyOneIn int `json:"faulty_answers_5xx_one_in,omitempty"`
+	// Swap: the recovery phase is played with the roles swapped first. When the fault sequence is over FAULTY
+	// stops misbehaving for good (200 to every request and every health probe) and the backend that was GOOD
+	// throughout goes away (refuses connections): "afterwards a request to a healthy backend succeeds normally"
+	// can then only be satisfied through the backend that misbehaved. Then GOOD comes back and the ordinary
+	// recovery probes follow.
+	Swap bool `json:"recovery_through_recovered_backend,omitempty"`
 }
 
 func (c Case) String() string {
@@ -256,8 +353,14 @@ func (c Case) String() string {
 		return fmt.Sprintf("breaker-trial %+v: open the breaker with %s, wait timeout+0.2 s, one trial request (%s) carrying %s", c.Cfg, c.Opening, kindOf(c.Steps[0].Kind), c.Steps[0].Fault)
 	case "window-expiry":
 		return fmt.Sprintf("window-expiry %+v: FAULTY answers 5xx, %d keep-alive clients for %d s (%d free-running back to back, %d in synchronised volleys)", c.Cfg, c.Clients, c.Seconds, min(c.FreeRunning, c.Clients), c.Clients-min(c.FreeRunning, c.Clients))
+	case "flaky-load":
+		return fmt.Sprintf("flaky-load %+v: FAULTY answers 5xx to one request in %d and 200 to the others, %d keep-alive clients for %d s (%d free-running back to back, %d in synchronised volleys)", c.Cfg, c.FlakyOneIn, c.Clients, c.Seconds, min(c.FreeRunning, c.Clients), c.Clients-min(c.FreeRunning, c.Clients))
 	}
-	return fmt.Sprintf("%+v steps [%s]", c.Cfg, strings.Join(ss, ", "))
+	swap := ""
+	if c.Swap {
+		swap = "; recovery first with the roles swapped (FAULTY recovered, GOOD refuses connections)"
+	}
+	return fmt.Sprintf("%+v steps [%s]%s", c.Cfg, strings.Join(ss, ", "), swap)
 }
 
 // Nontrivial is the NT rule of the design: >= 2 distinct fault kinds, or >= 1 abort-type fault with the
@@ -273,21 +376,34 @@ func (c Case) Nontrivial() bool {
 			quiet = quiet || len(kinds) > 0
 			continue
 		}
+		if s.Fault == GoodBurst {
+			continue
+		}
 		kinds[s.Fault] = true
 		abort = abort || abortFault(s.Fault)
 	}
 	return len(kinds) >= 2 || (abort && c.Cfg.Breaker > 0) || quiet
 }
 
-// faults is the number of fault steps (pauses not counted).
+// faults is the number of fault steps (pauses and well-behaved bursts not counted).
 func (c Case) faults() int {
 	n := 0
 	for _, s := range c.Steps {
-		if s.Fault != Pause {
+		if s.isFault() {
 			n++
 		}
 	}
 	return n
+}
+
+// goodBurstAfterFault tells whether the sequence has a well-behaved concurrent burst right after a fault step.
+func (c Case) goodBurstAfterFault() bool {
+	for i, s := range c.Steps {
+		if s.Fault == GoodBurst && i > 0 && c.Steps[i-1].isFault() {
+			return true
+		}
+	}
+	return false
 }
 
 // quietAfterFault tells whether the sequence has a pause after a fault step.
@@ -297,9 +413,18 @@ func (c Case) quietAfterFault() bool {
 		if s.Fault == Pause && seen {
 			return true
 		}
-		seen = seen || s.Fault != Pause
+		seen = seen || s.isFault()
 	}
 	return false
+}
+
+// HealthCells is the health-check configuration dimension: passive checks on (unhealthy_timeout 1 s; the
+// configuration is rejected without one) / off with the timeout still written / off with the timeout left
+// out, each with active checks off / on (interval 2 s, timeout 1 s).
+var HealthCells = []struct{ Passive, Omitted, Active bool }{
+	{true, false, false}, {true, false, true},
+	{false, false, false}, {false, false, true},
+	{false, true, false}, {false, true, true},
 }
 
 // genCfg draws the configuration dimensions.
@@ -310,7 +435,14 @@ func genCfg(rt *rapid.T) Cfg {
 		c.BreakerInterval = rapid.SampledFrom([]int{1, 1, 1, 60}).Draw(rt, "breaker_interval")
 	}
 	c.Limiter = rapid.Bool().Draw(rt, "limiter")
-	c.Passive = rapid.Bool().Draw(rt, "passive")
+	// passive on in half of the draws (as before the timeout dimension existed); off: timeout written / left out
+	switch rapid.SampledFrom([]string{"on", "on", "off", "off-timeout-omitted"}).Draw(rt, "passive") {
+	case "on":
+		c.Passive = true
+		c.PassiveThreshold = rapid.SampledFrom([]int{0, 0, 3, 50}).Draw(rt, "passive_threshold") // 0 = 2
+	case "off-timeout-omitted":
+		c.PassiveTimeoutOmitted = true
+	}
 	c.Active = rapid.Bool().Draw(rt, "active")
 	c.Plugins = rapid.Bool().Draw(rt, "plugins")
 	c.Handler = rapid.IntRange(1, 3).Draw(rt, "handler_timeout")
@@ -319,11 +451,15 @@ func genCfg(rt *rapid.T) Cfg {
 	return c
 }
 
-func genStep(rt *rapid.T) Step {
+// genStep draws a fault step; active: the lab has active checks, so the fault may also be played on the
+// health endpoint (1 in 3 of the faults a probe can meet).
+func genStep(rt *rapid.T, active bool) Step {
 	s := Step{Fault: rapid.SampledFrom(Faults).Draw(rt, "fault"), Kind: rapid.SampledFrom(Kinds).Draw(rt, "kind")}
 	if rapid.Bool().Draw(rt, "concurrent") {
 		s.Concurrent = rapid.IntRange(2, 8).Draw(rt, "n")
 		s.Both = rapid.IntRange(0, 3).Draw(rt, "both") == 0
+		// 1 in 3: well-behaved requests in the same (then synchronised) burst
+		s.Good = rapid.SampledFrom([]int{0, 0, 0, 0, 4, 8, 16, 24}).Draw(rt, "good_in_burst")
 	} else if s.N = rapid.SampledFrom([]int{0, 0, 1, 2, 3}).Draw(rt, "requests"); s.N > 0 {
 		// a burst smaller than a threshold: played by both backends, so that exactly N requests are faulted
 		s.Both = true
@@ -334,7 +470,15 @@ func genStep(rt *rapid.T) Step {
 		}
 		s.Framing = f
 	}
+	if active && probeFault(s.Fault) {
+		s.HealthToo = rapid.IntRange(0, 2).Draw(rt, "health_endpoint_too") == 0
+	}
 	return s
+}
+
+// genGoodBurst draws a well-behaved concurrent burst of 8-32 requests.
+func genGoodBurst(rt *rapid.T) Step {
+	return Step{Fault: GoodBurst, Concurrent: rapid.IntRange(8, 32).Draw(rt, "good_burst"), Kind: rapid.SampledFrom([]string{"get", "get", "get", "post-cl", "head", "upgrade-websocket", "expect-continue"}).Draw(rt, "good_kind")}
 }
 
 // genPause draws a quiet period of 1.1-2.5 s.
@@ -343,8 +487,11 @@ func genPause(rt *rapid.T) Step {
 }
 
 // genCase draws a whole case with a fault sequence of length 1..k (longer ones preferred: all
-// single faults are enumerated by the other sub-check); after each fault a quiet period follows in
-// 2 of 5 draws (pauses do not count towards the length).
+// single faults are enumerated by the other sub-check); after each fault step follows, in 1 of 3 draws, a
+// well-behaved concurrent burst of 8-32 requests (and, in half of those, the same fault step and another
+// such burst once or twice more: the moment right after a fault is visited a few times), and in 2 of 5
+// draws a quiet period (neither counts towards the length). In half of the draws the recovery phase is
+// played with the roles swapped first (Case.Swap).
 func genCase(k int) *rapid.Generator[Case] {
 	return rapid.Custom(func(rt *rapid.T) Case {
 		c := Case{Cfg: genCfg(rt)}
@@ -356,10 +503,25 @@ func genCase(k int) *rapid.Generator[Case] {
 		}
 		n := rapid.SampledFrom(lens).Draw(rt, "length")
 		for i := 0; i < n; i++ {
-			c.Steps = append(c.Steps, genStep(rt))
+			st := genStep(rt, c.Cfg.Active)
+			c.Steps = append(c.Steps, st)
+			if rapid.IntRange(0, 2).Draw(rt, "good_burst_after") == 0 {
+				c.Steps = append(c.Steps, genGoodBurst(rt))
+				for r := rapid.SampledFrom([]int{0, 0, 1, 2}).Draw(rt, "again"); r > 0; r-- {
+					again := st
+					again.HealthToo = false // the held variant once is enough (2.3 s each)
+					c.Steps = append(c.Steps, again, genGoodBurst(rt))
+				}
+			}
 			if rapid.IntRange(0, 4).Draw(rt, "quiet") < 2 {
 				c.Steps = append(c.Steps, genPause(rt))
 			}
+		}
+		c.Swap = rapid.Bool().Draw(rt, "swap_roles_for_recovery")
+		if c.Swap && c.Cfg.Strategy == "least_connections" {
+			// an idle least_connections pool always picks the backend listed first: listed second, the recovered
+			// backend would legitimately never be asked while the refusing one is not ejected
+			c.Cfg.FaultyFirst = true
 		}
 		return c
 	})
@@ -380,6 +542,32 @@ func genExpiry() *rapid.Generator[Case] {
 			c.FreeRunning = c.Clients / 2
 		case "free":
 			c.FreeRunning = c.Clients
+		}
+		return c
+	})
+}
+
+// genFlaky draws a flaky-load case (the strategy is assigned by the caller): FAULTY (1-8 entries) answers
+// 5xx to one request in 2-5 and 200 to the others, GOOD answers 200; passive checks on in 7 of 8 draws
+// with an unhealthy_threshold of 2, 3, 5 or 50 (with a high threshold the flaky backend is hardly ever
+// ejected: counted failures and successes alternate for the whole burst).
+func genFlaky() *rapid.Generator[Case] {
+	return rapid.Custom(func(rt *rapid.T) Case {
+		c := Case{Kind: "flaky-load",
+			Cfg: Cfg{FaultyFirst: rapid.Bool().Draw(rt, "faulty_first"), FaultyEntries: rapid.IntRange(1, 8).Draw(rt, "faulty_entries"),
+				Active: rapid.Bool().Draw(rt, "active"), Plugins: rapid.IntRange(0, 3).Draw(rt, "plugins") == 0,
+				Handler: rapid.IntRange(1, 3).Draw(rt, "handler_timeout"), BackendRead: rapid.IntRange(1, 3).Draw(rt, "backend_read_timeout")},
+			FlakyOneIn: rapid.IntRange(2, 5).Draw(rt, "one_in"),
+			Clients:    rapid.SampledFrom([]int{16, 32, 48, 64}).Draw(rt, "clients"),
+			Seconds:    rapid.IntRange(3, lab.Scale(3, 5)).Draw(rt, "seconds")}
+		if rapid.IntRange(0, 7).Draw(rt, "passive") > 0 {
+			c.Cfg.Passive = true
+			c.Cfg.PassiveThreshold = rapid.SampledFrom([]int{2, 3, 5, 50, 50}).Draw(rt, "threshold")
+		} else {
+			c.Cfg.PassiveTimeoutOmitted = rapid.Bool().Draw(rt, "timeout_omitted")
+		}
+		if rapid.IntRange(0, 3).Draw(rt, "mode") == 0 {
+			c.FreeRunning = c.Clients / 2
 		}
 		return c
 	})
@@ -408,7 +596,10 @@ func (c Cfg) YAML(proxyPort, adminPort int, goodURL, faultyURL string) string {
 	if thr == 0 {
 		thr = 2
 	}
-	p("  passive:\n    enabled: %v\n    unhealthy_threshold: %d\n    unhealthy_timeout: %d\n", c.Passive, thr, unhealthyFor)
+	p("  passive:\n    enabled: %v\n    unhealthy_threshold: %d\n", c.Passive, thr)
+	if !c.PassiveTimeoutOmitted {
+		p("    unhealthy_timeout: %d\n", unhealthyFor)
+	}
 	p("rate_limit:\n  enabled: %v\n  max_tokens: 1000\n  refill_rate_seconds: %d\n", c.Limiter, refillEvery)
 	if c.Breaker > 0 {
 		mr := "  max_requests: 1\n"
